@@ -12,6 +12,7 @@ pub struct RegionsExec {
     pool: Vec<Reg>,
     maps: Vec<GuestMemoryMmap<()>>,
     removed: Vec<Reg>,
+    created: usize,
 }
 
 fn merr(e: &MErr) -> Value {
@@ -87,8 +88,21 @@ impl Exec for RegionsExec {
             }
             "new_region" => {
                 let (s0, n) = (u(line, "s"), us(line, "n"));
-                let mr = MmapRegion::<()>::new(n).expect("harness: mmap");
-                match GuestRegionMmap::new(mr, GuestAddress(s0)) {
+                // creation goes through the three public routes in turn: new(mapping, base), from_range anonymous, from_range
+                // over a file - the end-of-address-space refusal must not depend on the route
+                self.created += 1;
+                let res = match self.created % 3 {
+                    0 => GuestRegionMmap::<()>::from_range(GuestAddress(s0), n, None),
+                    1 => {
+                        let path = format!("/tmp/vmh-regions-{}-{}", std::process::id(), self.created);
+                        let f = std::fs::OpenOptions::new().read(true).write(true).create(true).truncate(true).open(&path).expect("harness: file");
+                        f.set_len(n as u64 + 4096).expect("harness: set_len");
+                        let _ = std::fs::remove_file(&path);
+                        GuestRegionMmap::<()>::from_range(GuestAddress(s0), n, Some(vm_memory::FileOffset::new(f, 0)))
+                    }
+                    _ => GuestRegionMmap::new(MmapRegion::<()>::new(n).expect("harness: mmap"), GuestAddress(s0)),
+                };
+                match res {
                     Ok(g) => {
                         let id = self.pool.len() + 1;
                         unsafe { std::ptr::write_volatile(g.as_ptr(), id as u8) };
